@@ -131,6 +131,7 @@ fn check(c: &Case, ctx: &Ctx) -> Outcome {
         if !exp.is_empty() { cl.push("has_records"); }
         if multi { cl.push(">=3_alleles"); }
         if m.reference.len() >= 2 { cl.push("multi_contig"); }
+        if m.reference.iter().any(|r| r.is_empty()) { cl.push("empty_contig"); }
         if m.reference.iter().any(|r| r.iter().any(|b| matches!(b, b'N' | b'n'))) { cl.push("N_in_reference"); }
         if m.reference.iter().any(|r| r.iter().any(|b| b.is_ascii_lowercase())) { cl.push("lower_case_reference"); }
         if c.ambig_mask || c.repeat_mask { cl.push("masked"); }
